@@ -535,6 +535,9 @@ func (rngdata *RangeNamespaceData) ReadFrom(reader io.Reader) (int64, error) {
 	}
 
 	rngdata.Shares = make([][]libshare.Share, len(nd))
+	// the receiver may hold an earlier container: its proofs must not leak into this one
+	rngdata.FirstIncompleteRowProof = nil
+	rngdata.LastIncompleteRowProof = nil
 	for i, row := range nd {
 		rngdata.Shares[i] = row.Shares
 		if i == 0 {
